@@ -11,6 +11,7 @@ from __future__ import annotations
 import numpy as np
 
 from .. import exprcase as X
+from .. import harness as H
 from ..harness import close
 from ..recipes import ast as A
 from ..recipes import build as B
@@ -29,7 +30,8 @@ def info(tier):
         "rule": "scalar recipes (directed families x 4 V-relations; random grammar depth<=3, |V|<=7); all n^2 entries of "
         "compute_hessian evaluated, and compile_hessian output, at 2 regular points (margin>=0.05) vs second-order jet "
         "reference; H=H^T asserted; non-trivial = >=2 operator nodes",
-        "required_cells": [f"{fam}|{v}" for fam, _ in X.directed_families() for v in X.VRELS] + [f"shared-subexpressions|{v}" for v in X.VRELS],
+        "required_cells": [f"{fam}|{v}" for fam, _ in X.directed_families() for v in X.VRELS] + [f"shared-subexpressions|{v}" for v in X.VRELS]
+        + [f"special:{k}|{v}" for k in ("tiny", "near-one", "near-integer-exponent", "near-integer-vpow", "near-zero") for v in ("exact", "superset_permuted")],
         "assumptions": ["regular points with margin >= 0.05", "jet reference validated by selftest (differences of first-order jets)"],
     }
 
@@ -42,6 +44,7 @@ def run_case(case, rec):
     fam, vrel = case["family"], case["vrel"]
     cell = f"{fam}|{vrel}"
     B.SHARE[0] = bool(case.get("share"))
+    H.SCALE_INV[0] = float(case.get("inv_scale", 1.0))
     if B.SHARE[0]:
         cell = f"shared-subexpressions|{vrel}"
     n = len(V)
@@ -125,6 +128,39 @@ def run_case(case, rec):
                         if d > worst.get(key, (0, None))[0]:
                             worst[key] = (d, (pt, float(got[i, k]), float(want[i, k])))
             rec.cmp(n * n, cell)
+    # the same callable on one point buffer updated in place, and on integer-typed points
+    if fn is not None and not nbad:
+        buf = B.point_array(V, case["points"][0]).copy()
+        for pt in list(case["points"]) + [case["points"][0]]:
+            buf[:] = B.point_array(V, pt)
+            j, t = R.ref_jet(D, node, V, pt, order=2)
+            try:
+                got = np.asarray(fn(buf), dtype=float)
+            except Exception as ex:
+                bad("compile_hessian", "same-buffer-call-raises:" + type(ex).__name__, pt, ex=ex)
+                break
+            rec.cmp(n * n, cell)
+            rec.events["same-buffer-comparisons"] += 1
+            if got.shape != (n, n) or not all(close(got[i, k], j.H[i, k], RTOL, max(t.mag, t.dmag))[0] for i in range(n) for k in range(n)):
+                bad("compile_hessian", "stale-or-wrong-after-in-place-update-of-the-point-buffer", pt, got=got.tolist(), want=np.asarray(j.H).tolist())
+                break
+        forms = X.other_point_forms(case)
+        if forms is not None:
+            pt, reps = forms
+            j, t = R.ref_jet(D, node, V, pt, order=2)
+            if t.regular(0.05) and np.all(np.isfinite(j.H)):
+                for label, xrep in reps:
+                    try:
+                        with np.errstate(all="ignore"):
+                            got = np.asarray(fn(xrep), dtype=float)
+                    except Exception as ex:  # NumPy's own integer-arithmetic refusals (int ** negative int): not a result, not judged
+                        rec.events[f"point-form-refused:{label}:{type(ex).__name__}"] += 1
+                        continue
+                    rec.cmp(n * n, cell)
+                    rec.events["point-form-comparisons:" + label] += 1
+                    if got.shape != (n, n) or not all(close(got[i, k], j.H[i, k], RTOL, max(t.mag, t.dmag))[0] for i in range(n) for k in range(n)):
+                        bad("compile_hessian", "result-depends-on-the-dtype-of-the-point:" + label, pt, got=got.tolist(), want=np.asarray(j.H).tolist())
+                        break
     # parameters updated after compilation: the compiled Hessian and the symbolic entries must follow the current values
     if b.params and any(x[0] in ("par", "pel") for x in A.walk(node)):
         newvals = {pn: [0.75, -1.25, 2.25, 0.5, 0.0, 1.0][(i + n) % 6] for i, pn in enumerate(sorted(b.params))}
@@ -172,6 +208,10 @@ def run(ctx, rec):
                     sc = X.shared_case(rng, c, form=(i // 2) % len(X.DAG_FORMS))
                     if sc is not None:
                         run_case(sc, rec)
+    for c in X.special_cases(rng, ctx.mine):
+        if len(c["V"]) <= 18:
+            run_case(c, rec)
+    H.SCALE_INV[0] = 1.0
     n = 0
     while n < N_RANDOM[ctx.tier] and not rec.out_of_time():
         n += 1
